@@ -133,7 +133,10 @@ def variants(tier):
         # the first / last day of each header epoch (the layout is chosen from the header's own start date)
         for ep, day in ((1, datetime.datetime(1992, 9, 7, 23, 0, 0)), (2, datetime.datetime(1992, 9, 8, 0, 30, 0)),
                         (2, datetime.datetime(1992, 10, 20, 12, 0, 0)), (2, datetime.datetime(1994, 11, 15, 23, 0, 0)),
-                        (3, datetime.datetime(1994, 11, 16, 0, 30, 0))):
+                        (3, datetime.datetime(1994, 11, 16, 0, 30, 0)),
+                        # passes of 2000 and later: the 7-bit year field holds 0..7 (century window), the layout is still epoch 3
+                        (3, datetime.datetime(2000, 1, 1, 0, 30, 0)), (3, datetime.datetime(2001, 12, 1, 10, 0, 0)),
+                        (3, datetime.datetime(2007, 6, 30, 23, 0, 0))):
             v.append(dict(fmt=fmt, epoch=ep, archive=False, forced=False, start_override=str(day)))
         v.append(dict(fmt=fmt, epoch=3, archive=True, forced=False, blank_tbm=True))     # TBM header whose name field is blank (42 NUL + 2 spaces)
     # scan line numbers using the top bit of the (unsigned, KLM) field: legal for LAC/FRAC passes (< 65535)
